@@ -1507,6 +1507,13 @@ func (f *Frame) makeSlice(i *ssa.MakeSlice, st *State, g string) {
 	c := f.c()
 	ln, cp := f.val(i.Len, st).T, f.val(i.Cap, st).T
 	elem := i.Type().Underlying().(*types.Slice).Elem()
+	// a negative length is a panic of its own (and a different defect from an over-large one): separate obligation,
+	// so that a site whose size bound is a recorded finding still reports a length that can go negative
+	if bt, ok := i.Len.Type().Underlying().(*types.Basic); ok && bt.Info()&types.IsUnsigned == 0 {
+		if _, isConst := i.Len.(*ssa.Const); !isConst {
+			c.oblige("makelen", f.sweepTags(), g, fmt.Sprintf("(<= 0 %s)", ln), f.where(i), "make([]T, len): len >= 0")
+		}
+	}
 	c.oblige("makeslice", f.sweepTags(), g, fmt.Sprintf("(and (<= 0 %s) (<= %s %s) (<= %s 281474976710656))", ln, ln, cp, cp), f.where(i), "make([]T, len, cap): 0 <= len <= cap < 2^48")
 	f.x.chargeAlloc(st, g, cp, elem, f.where(i))
 	r := st.alloc()
